@@ -350,6 +350,7 @@ struct Params {
     cont_len: usize,
     set_size: usize,
     tok_len: usize,
+    deep_bound: usize,
 }
 
 fn params(tier: Tier) -> Params {
@@ -363,6 +364,7 @@ fn params(tier: Tier) -> Params {
             cont_len: 2,
             set_size: 2,
             tok_len: 7,
+            deep_bound: 12,
         },
         Tier::Thorough => Params {
             // length 5 for the event decoder runs over the 43-symbol base alphabet only (the
@@ -375,6 +377,7 @@ fn params(tier: Tier) -> Params {
             cont_len: 3,
             set_size: 3,
             tok_len: 8,
+            deep_bound: 16,
         },
     }
 }
@@ -668,6 +671,57 @@ pub fn worker(ctx: &Ctx, mut wc: WorkerCtx, _extra: &[String]) {
         }
     }
 
+    // ---- space D: deep buffers with per-state representatives: every extension byte is taken
+    // from the local representatives of the state reached (one byte per distinct successor state
+    // plus three dead bytes), which reaches far into the payload loops of string sequences.
+    // Weaker on re-parse behaviour than space S (bytes of one local class can differ once they
+    // are re-scheduled), hence reported separately.
+    for which in [Which::Event, Which::Command] {
+        let t = table(which);
+        let deep = p.deep_bound;
+        // DFS over (buffer, state); a node is checked when it dies or reaches the bound
+        let mut stack: Vec<(Vec<u8>, usize)> = vec![(vec![], t.start)];
+        let mut nodes = 0u64;
+        let mut checked = 0u64;
+        while let Some((u, s)) = stack.pop() {
+            nodes += 1;
+            let reps = local_reps(which, s);
+            for b in reps {
+                let mut w = u.clone();
+                w.push(b);
+                let next = t.step(s, b);
+                let live = match next {
+                    Some(ns) => !(t.accepting[ns] && t.terminal[ns]),
+                    None => false,
+                };
+                if live && w.len() < deep {
+                    stack.push((w, next.unwrap()));
+                    continue;
+                }
+                // leaf: the buffer dies, completes, or is as deep as we go
+                unit += 1;
+                if unit % shards != shard {
+                    continue;
+                }
+                case += 1;
+                if case <= resume {
+                    continue;
+                }
+                wc.begin_case(case, &descriptor(1, which, &w[..w.len().min(200)], &[0]));
+                checked += 1;
+                // one more byte after the leaf so that a pending tail is resolved too
+                let mut w2 = w.clone();
+                w2.push(b'x');
+                let n = w2.len();
+                let parts = vec![vec![n], vec![1; n], vec![n - 1, 1], vec![n / 2, n - n / 2]];
+                check_and_report(&mut wc, &mut local, which, &w2, &parts, "light", true);
+            }
+        }
+        wc.count(&format!("D_{}_nodes_walked", which.name()), if shard == 0 { nodes } else { 0 });
+        wc.count(&format!("D_{}_leaves_checked", which.name()), checked);
+        wc.count(&format!("D_{}_runs", which.name()), checked * 4);
+    }
+
     // ---- space T: tokeniser core over pattern sets
     {
         let pool = pattern_pool();
@@ -814,8 +868,8 @@ pub fn run(ctx: &Ctx) -> Result<Report, String> {
     };
     let merged = workers::run_shards(&spec, &describe_crash)?;
     let c = |k: &str| merged.counters.get(k).copied().unwrap_or(0);
-    let states = c("S_event_states") + c("S_command_states");
-    let transitions = c("S_event_transitions") + c("S_command_transitions");
+    let states = c("S_event_states") + c("S_command_states") + c("D_event_nodes_walked") + c("D_command_nodes_walked");
+    let transitions = c("S_event_transitions") + c("S_command_transitions") + c("D_event_leaves_checked") + c("D_command_leaves_checked");
     let runs: u64 = merged
         .counters
         .iter()
@@ -842,7 +896,7 @@ pub fn run(ctx: &Ctx) -> Result<Report, String> {
         )
         .set(
             "rule",
-            "states = reachable decoder states (distinct buffers of at most B bytes over the alphabet, both production decoders); \
+            "states = reachable decoder states (distinct buffers of at most B bytes over the alphabet, both production decoders, space S) + buffers walked with per-state representatives up to the deep bound (space D); \
              transitions = (state, continuation) pairs, each executed on the real decoder under up to 5 read partitions; \
              evaluations = strings checked under all partitions (spaces A, A256, T) + transitions; \
              non-trivial (production decoders) = inputs on which a longer candidate failed so that at least one byte after the emitted item was interpreted a second time; (tokeniser) = inputs with a token and at least two items",
@@ -853,7 +907,7 @@ pub fn run(ctx: &Ctx) -> Result<Report, String> {
             json!({
                 "A_len_event": p.len_event.min(4), "A_len_event_structural_alphabet": p.len_event, "A_len_command": p.len_command, "A_len_utf8": p.len_utf8,
                 "S_buffer_bound_event": p.buf_bound, "S_buffer_bound_command": p.buf_bound + 1, "S_continuation_len": p.cont_len,
-                "T_pattern_set_size": p.set_size, "T_input_len": p.tok_len, "T_pool": pattern_pool().iter().map(|x| x.0).collect::<Vec<_>>(),
+                "D_deep_buffer_bound_local_representatives": p.deep_bound, "T_pattern_set_size": p.set_size, "T_input_len": p.tok_len, "T_pool": pattern_pool().iter().map(|x| x.0).collect::<Vec<_>>(),
             }),
         )
         .set(
